@@ -873,6 +873,13 @@ bool OPNMIDIplay::realTime_SysEx(const uint8_t *msg, size_t size)
     if(size < 4 || msg[0] != 0xF0 || msg[size - 1] != 0xF7)
         return false;
 
+    // Between F0 and F7 only 7-bit data bytes are allowed
+    for(size_t i = 1; i + 1 < size; ++i)
+    {
+        if((msg[i] & 0x80) != 0)
+            return false;
+    }
+
     unsigned manufacturer = msg[1];
     unsigned dev = msg[2];
     msg += 3;
